@@ -88,6 +88,8 @@ def verify_sram_elaborate():
                 fv.add(nm, lab, e["path"].pc, z3.And(z3.BoolVal(e["domain"] == dom and len(e["ctx"]) == len(ctx)), same_expr(e["dst"], dst), same_expr(e["src"], src),
                                                      *[z3.And(z3.BoolVal(c1[0] == c2[0]), same_expr(c1[1], c2[1])) for c1, c2 in zip(e["ctx"], ctx)]))
     fv.add("cover:both-variants", "vacuity", [], z3.BoolVal(n_w >= 1 and n_r >= 1))
+    from .hdlrec import stores_nothing_on_the_component as _frame
+    _frame(fv, ex)
     fv.add_engine_obligations(ex)
     return fv
 
